@@ -84,10 +84,13 @@ def coalesce (s : Stream) : Stream := coalesceGo true none s
 
 /-- genshi's callback layer over a tokenizer: `κ` is the parser state that survives a flush
     (`_open_tags`), `step` is one `handle_*` call returning the events it enqueues, `finish` the
-    events yielded after the last flush -/
-structure Layer (κ cb : Type) where
-  step : κ → cb → Except PyExc (κ × Stream)
-  finish : κ → Stream
+    events yielded after the last flush. `ε` is the type of events (with or without positions). -/
+structure LayerG (κ cb ε : Type) where
+  step : κ → cb → Except PyExc (κ × List ε)
+  finish : κ → List ε
+
+/-- layers over position-free events (what the theorems are stated for) -/
+abbrev Layer (κ cb : Type) := LayerG κ cb Event
 
 /-- what happens during one `feed()` / `Parse()`: callbacks into the layer, possibly cut short
     by an exception of the tokenizer's own -/
@@ -109,7 +112,7 @@ def Read.toItems {cb : Type} : Read cb → List (Item cb)
   | .fail e => [.raise e]
 
 /-- play one batch into the queue `q` -/
-def feed {κ cb : Type} (L : Layer κ cb) : κ → Stream → List (Item cb) → Except PyExc (κ × Stream)
+def feed {κ cb ε : Type} (L : LayerG κ cb ε) : κ → List ε → List (Item cb) → Except PyExc (κ × List ε)
   | k, q, [] => .ok (k, q)
   | _, _, .raise e :: _ => .error e
   | k, q, .cb c :: rest =>
@@ -121,7 +124,7 @@ def feed {κ cb : Type} (L : Layer κ cb) : κ → Stream → List (Item cb) →
     Per read: the batch is played into the empty queue; the queue is yielded and emptied.
     After the last read, `close()`/`Parse('', True)` plays the `close` batch, the queue is
     yielded, then `finish`. Nothing of a failing batch is yielded. -/
-def generate {κ cb : Type} (L : Layer κ cb) : κ → List (Read cb) → List (Item cb) → Stream × Option PyExc
+def generate {κ cb ε : Type} (L : LayerG κ cb ε) : κ → List (Read cb) → List (Item cb) → List ε × Option PyExc
   | k, [], close =>
     match feed L k [] close with
     | .error e => ([], some e)
@@ -143,7 +146,7 @@ def parse {κ cb : Type} (L : Layer κ cb) (handler : PyExc → Raised) (k : κ)
   | (evs, some e) => (coalesceGo false none evs, some (handler e))
 
 /-- reference: all callbacks in one go, no queue, no batches -/
-def eager {κ cb : Type} (L : Layer κ cb) : κ → List (Item cb) → Stream × Option PyExc
+def eager {κ cb ε : Type} (L : LayerG κ cb ε) : κ → List (Item cb) → List ε × Option PyExc
   | k, [] => (L.finish k, none)
   | _, .raise e :: _ => ([], some e)
   | k, .cb c :: rest =>
@@ -152,6 +155,44 @@ def eager {κ cb : Type} (L : Layer κ cb) : κ → List (Item cb) → Stream ×
     | .ok (k', evs) =>
       let r := eager L k' rest
       (evs ++ r.1, r.2)
+
+/-! ### the same with positions: every event carries `(lineno, offset)` (the file name is constant) -/
+
+abbrev Pos := Int × Int
+abbrev PEvent := Event × Pos
+abbrev PStream := List PEvent
+
+/-- forget the positions -/
+def erase (s : PStream) : Stream := s.map (·.1)
+
+def flushBufP : Option (Str × Pos) → PStream
+  | some b => [(.text b.1 false, b.2)]
+  | none => []
+
+/-- `_coalesce` with `textpos`: a merged TEXT event keeps the position of the first one of its run -/
+def coalesceGoP (final : Bool) : Option (Str × Pos) → PStream → PStream
+  | buf, [] => if final then flushBufP buf else []
+  | buf, e :: es =>
+    match e.1 with
+    | .text s _ =>
+      coalesceGoP final (some (match buf with
+        | some b => (b.1 ++ s, b.2)
+        | none => (s, e.2))) es
+    | _ => flushBufP buf ++ e :: coalesceGoP final none es
+
+def parseP {κ cb : Type} (L : LayerG κ cb PEvent) (handler : PyExc → Raised) (k : κ)
+    (reads : List (Read cb)) (close : List (Item cb)) : PStream × Option Raised :=
+  match generate L k reads close with
+  | (evs, none) => (coalesceGoP true none evs, none)
+  | (evs, some e) => (coalesceGoP false none evs, some (handler e))
+
+def Item.map {α β : Type} (g : α → β) : Item α → Item β
+  | .cb c => .cb (g c)
+  | .raise e => .raise e
+
+def Read.map {α β : Type} (g : α → β) : Read α → Read β
+  | .items l => .items (l.map (Item.map g))
+  | .fail e => .fail e
 
 /-! ### predicates of the property -/
 
